@@ -50,6 +50,28 @@ PURE = re.compile("|".join([
 PANICS = re.compile(r"core::panicking::\w+|std::rt::(begin_panic|panic_fmt).*|std::panicking::\w+|core::option::(expect_failed|unwrap_failed)|core::result::unwrap_failed|core::slice::index::\w+fail\w*|std::process::exit|core::panicking::assert_failed.*|std::rt::panic_\w+")
 
 
+def _is_ro_cursor(interp, place):
+    m = re.fullmatch(r"L(\d+)", place or "")
+    return bool(m and re.match(r"std::io::Cursor<&", interp.lty(int(m.group(1)))))
+
+
+def havoc_place(interp, st, tgt):
+    """A callee may have mutated the object at `tgt`."""
+    if _is_ro_cursor(interp, tgt):
+        # reads move the position; the underlying immutable slice keeps its length
+        p = "pos(%s)" % tgt
+        lo = st.z.lo(p)
+        st.z.kill(p)
+        if lo != -INF:
+            st.z.set_range(p, lo, None)      # positions only grow through Read
+        return
+    st.z.kill_prefix(tgt)
+    for k in [k for k in st.tags if k == tgt or k.startswith(tgt + ".")]:
+        del st.tags[k]
+    for k in [k for k in st.vals if k == tgt or k.startswith(tgt + ".")]:
+        del st.vals[k]
+
+
 def referent(interp, st, o):
     """Canonical place an operand refers to (following a reference held in a temporary)."""
     p = o.get("c") or o.get("m")
@@ -90,11 +112,9 @@ def apply_model(interp, st, t, b, record):
             if l is not None and re.match(r"&mut \[|&mut str", interp.lty(l)):
                 continue        # a slice's length cannot change through a reference to it
             if l is not None and l in st.refs and interp.lty(l).startswith("&mut"):
-                st.z.kill_prefix(st.refs[l])
-                for k in [k for k in st.tags if k == st.refs[l] or k.startswith(st.refs[l] + ".")]:
-                    del st.tags[k]
+                havoc_place(interp, st, st.refs[l])
             elif l is not None and interp.lty(l).startswith("&mut"):
-                st.z.kill_prefix("L%d.*" % l)
+                havoc_place(interp, st, "L%d.*" % l)
 
     def fresh_dest(lo=None, hi=None):
         if dest is not None:
@@ -159,6 +179,12 @@ def apply_model(interp, st, t, b, record):
         if r and dest and not dest.get("p"):
             st.refs[dest["l"]] = "iter:" + r
         return
+    if nm in ("core::slice::<impl [T]>::chunks_exact", "core::slice::<impl [T]>::chunks"):
+        n = interp.range_of(st, args[1])
+        fresh_dest()
+        if dest and not dest.get("p") and n[0] == n[1] and nm.endswith("chunks_exact"):
+            st.refs[dest["l"]] = "chunks:%d" % n[0]
+        return
     if nm == "std::iter::Iterator::position":
         r = referent(interp, st, args[0])
         src = None
@@ -222,6 +248,8 @@ def apply_model(interp, st, t, b, record):
         dl = dest["l"] if dest and not dest.get("p") else None
         if r and is_cursor:
             pos_t, len_t = "pos(%s)" % r, _len_term(r)
+            st.z.set_range(len_t, 0, LEN_MAX)
+            st.z.set_range(pos_t, 0, None)
             if n is None:
                 nb = referent(interp, st, args[1])
                 nt = _len_term(nb) if nb else None
@@ -261,6 +289,20 @@ def apply_model(interp, st, t, b, record):
         if dest and not dest.get("p") and src:
             dl = dest["l"]
             st.ghost[dl] = ("chain", src)
+            # the success payload is the same value (Result::Ok = variant 0, Option::Some = variant 1,
+            # ControlFlow::Continue = variant 0); closures in map/map_err change it, so only for the identity wrappers
+            if nm in ("std::ops::Try::branch", "std::result::Result::<T, E>::ok", "std::option::Option::<T>::ok_or", "std::option::Option::<T>::ok_or_else",
+                      "std::result::Result::<T, E>::map_err", "std::option::Option::<T>::copied", "std::option::Option::<T>::cloned"):
+                src_opt = "Option" in nm.split("::<")[0] or "option::Option" in interp.lty(operand_local(args[0]) or 0)
+                sp = src + (".v1.f0" if src_opt else ".v0.f0")
+                dst_is_opt = nm.endswith("::ok") or nm.endswith("copied") or nm.endswith("cloned")
+                dp = "L%d" % dl + (".v1.f0" if dst_is_opt else ".v0.f0")
+                if any(_rooted_t(x, sp) for x in st.z.terms()):
+                    interp.copy_subterms(st, sp, dp)
+                    if sp in st.z.terms():
+                        st.z.eq(dp, sp, 0)
+                    if sp in st.vals:
+                        st.vals[dp] = st.vals[sp]
             if stag is not None:
                 if stag <= frozenset(["Ok", "Some"]):
                     st.tags["L%d" % dl] = frozenset(["Continue"]) if nm.endswith("Try::branch") else frozenset(["Ok", "Some"]) & _succ_names(nm)
@@ -340,6 +382,17 @@ def apply_model(interp, st, t, b, record):
             st.z.add(nl, lt, 0)
             if start and end:
                 # len = end - start when expressible
+                le, ls_ = st.lin.get(end), st.lin.get(start) or ((interp.rep(st, start),), 0)
+                if le:
+                    ve, vs = list(le[0]), list(ls_[0])
+                    okd = True
+                    for v in vs:
+                        if v in ve:
+                            ve.remove(v)
+                        else:
+                            okd = False
+                    if okd and len(ve) == 1:
+                        st.z.eq(nl, ve[0], le[1] - ls_[1])
                 d1 = st.z.dist(end, start)
                 d2 = st.z.dist(start, end)
                 if d1 != INF:
@@ -505,7 +558,7 @@ def apply_model(interp, st, t, b, record):
     if nm in ("std::convert::TryInto::try_into", "std::convert::TryFrom::try_from"):
         # slice -> array: Ok iff len == N
         r = referent(interp, st, args[0])
-        mm = re.search(r"\[u8; (\d+)\]", ga)
+        mm = re.search(r"\[u8; (\d+)(_usize)?\]", ga)
         fresh_dest()
         if r and mm and dest and not dest.get("p"):
             n = int(mm.group(1))
@@ -540,7 +593,11 @@ def apply_model(interp, st, t, b, record):
     # ---------------------------------------------------------------- iteration over integer ranges
     if nm == "std::iter::IntoIterator::into_iter":
         r = referent(interp, st, args[0])
+        al = operand_local(args[0])
+        keep_ref = st.refs.get(al) if al is not None else None
         dt = fresh_dest()
+        if keep_ref and keep_ref.startswith(("chunks:", "iter:")) and dest and not dest.get("p"):
+            st.refs[dest["l"]] = keep_ref
         if r and dt:
             interp.copy_subterms(st, r, dt)
             for sfx in (".f0", ".f1"):
@@ -550,6 +607,10 @@ def apply_model(interp, st, t, b, record):
     if nm == "std::iter::Iterator::next":
         r = referent(interp, st, args[0])
         dt = fresh_dest()
+        mm = re.fullmatch(r"L(\d+)", r or "")
+        if mm and dt and st.refs.get(int(mm.group(1)), "").startswith("chunks:"):
+            n = int(st.refs[int(mm.group(1))][7:])
+            st.z.set_range("len(%s.v1.f0)" % dt, n, n)
         if r and dt and re.search(r"ops::Range<(usize|u8|u16|u32|u64|i32)>", ga):
             start, end = r + ".f0", r + ".f1"
             pay = dt + ".v1.f0"
@@ -588,6 +649,11 @@ def apply_model(interp, st, t, b, record):
     ob("unmodelled", nm[:90], False, "external callee has no model (fail closed)")
     havoc_mut_args()
     fresh_dest()
+
+
+def _rooted_t(term, prefix):
+    from .absint import _rooted
+    return _rooted(term, prefix)
 
 
 def _succ_names(nm):
@@ -651,25 +717,42 @@ def _local_call(interp, st, t, b, record, key):
         ty = interp.lty(l)
         if ty.startswith("&mut"):
             tgt = st.refs.get(l, "L%d.*" % l)
-            st.z.kill_prefix(tgt)
-            for k in [k for k in st.tags if k == tgt or k.startswith(tgt + ".")]:
-                del st.tags[k]
+            if re.match(r"&mut \[", ty):
+                continue
+            havoc_place(interp, st, tgt)
             if "BgpReader<" in ty:
                 st.z.add(tgt + ".f1", "len(%s.f0)" % tgt, 0)
                 st.z.set_range(tgt + ".f1", 0, LEN_MAX)
     lo = hi = None
-    s = summ.get(key)
-    if s:
-        lo, hi = s
+    s = summ.get(key) or {}
+    if "" in s.get("ranges", {}):
+        lo, hi, _ = s["ranges"][""]
+    dt = None
     if dest is not None:
-        interp.assign_fresh(st, dest, lo, hi)
+        dt = interp.assign_fresh(st, dest, lo, hi)
+    if dt:
+        for sfx, (l2, h2, vs) in s.get("ranges", {}).items():
+            if sfx == "":
+                if vs:
+                    st.vals[dt] = vs
+                continue
+            st.z.set_range(dt + sfx, l2, h2)
+            if vs:
+                st.vals[dt + sfx] = vs
+        post = []
+        for (a, b2, c) in s.get("post_ok", []):
+            ta, tb = _subst(interp, st, a, args), _subst(interp, st, b2, args)
+            if ta and tb:
+                post.append((ta, tb, c))
+        if post and dest is not None and not dest.get("p"):
+            st.ghost[dest["l"]] = ("fact", tuple(post))
 
 
 def _subst(interp, st, term, args):
     """Map a callee-side term over parameters (P1, len(P1), P1.*.f1 ...) to the caller's term."""
     if term == "0":
         return "0"
-    m = re.match(r"(len\()?P(\d+)(.*?)(\))?$", term)
+    m = re.match(r"(len\(|pos\()?P(\d+)(.*?)(\))?$", term)
     if not m:
         return None
     i = int(m.group(2)) - 1
@@ -686,6 +769,8 @@ def _subst(interp, st, term, args):
         base = st.refs[p["l"]]
         rest = rest[2:]
     t = base + rest
-    if m.group(1):
+    if m.group(1) == "len(":
         return _len_term(t)
+    if m.group(1) == "pos(":
+        return "pos(%s)" % t
     return t
